@@ -101,6 +101,20 @@ CLAIMED = {
         "from the invariant theorem (C15).",
    technique="Coq invariant proof over RefDB histories + differential correspondence + independent constraint oracle on observed states",
    design="7 (C07)"),
+ "C13": dict(
+   text="Props/C13.v: for every tree of stored rows (any stamps, any version chains), every aborted set and horizon, the VACUUM pass "
+        "(remove rows of aborted creators and rows with a non-aborted deleter, erase rolled-back deletes, trim versions) yields a "
+        "tree from which any later snapshot reads exactly the rows, values and order the vacuum-time snapshot read, and never adds "
+        "rows or lengthens a chain (C13_pass); the two snapshot conditions are derived from the coordinator model for every "
+        "reachable state (C13_snapshots: judgement when no transaction is active, and reading after vacuum_transactions has "
+        "forgotten finished transactions); in the reference VACUUM is the identity at any position of any history (C13_reference). "
+        "The engine is tied to this on every run by histories with VACUUM at random points (reads before = reads after, oracle "
+        "independent of the model), by update/vacuum cycles with the file size sampled, and by the C18 tuple stream. Five defects "
+        "found this way were fixed (rolled-back delete removed by VACUUM, rolled-back DROP, cache capacity zero after a checkpoint, "
+        "free-space pointer after shrinking a cell, delete after aborted delete).",
+   note="Trusted: Coq kernel; vac_tuple is hand-modelled from vacuum_btree and tied by SQL histories only; page reuse is C11.",
+   technique="Coq proof (store-level simulation through the vacuum pass; coordinator snapshot lemmas) + differential correspondence with before/after and file-size oracles",
+   design="7 (C13)"),
 }
 NOT_YET = "not claimed yet: model and proofs under construction in this session (see DESIGN.md section 10, build order)"
 
